@@ -81,6 +81,18 @@ fn try_null_datalink(packet: &[u8]) -> Option<(IpAddr, IpAddr, u16, u16)> {
         return None;
     }
 
+    // The analyzer's parser recognises a NULL/loopback frame by its first two bytes (0x1e 0x00)
+    // and then goes by the IP version nibble, whatever the rest of the 4-byte header says.
+    // Decide on the same view, otherwise such a frame is analysed although the filter looked
+    // at different (or no) endpoints.
+    if packet.len() >= 24 && packet[0] == 0x1e && packet[1] == 0x00 {
+        return match packet[4] >> 4 {
+            4 => extract_ipv4_info(&packet[4..]),
+            6 => extract_ipv6_info(&packet[4..]),
+            _ => None,
+        };
+    }
+
     // NULL datalink has 4-byte header with address family
     // AF_INET = 2, AF_INET6 = 30 (on most systems)
     let family = u32::from_ne_bytes([packet[0], packet[1], packet[2], packet[3]]);
